@@ -128,4 +128,9 @@ class config_masters_round_trip:
         # axes (in any declaration order) and every master's location survive the driver's
         # write -> worker's load hand-off
         "axes-and-master-locations-survive": lambda result: result["loaded_is_what_was_written"] and result["reloaded_equals_loaded"] and result["default_master"],
+        # ... and so does every master's list of source files, for any legal file name
+        "sources-survive": lambda result: result["sources_first"] and result["sources_reloaded"],
+        # the one-master configuration handed to the UFO step comes back field for field
+        "per-master-ufo-configuration-survives": lambda result: result["ufo_config_diffs"] == [],
     }
+    known_witnesses = {"K11": H.k11_witness}
